@@ -37,7 +37,7 @@ CHECKS = {
          "DESIGN.md section 5, C06"),
  "C07": ("extendsplit_sim", "exploration",
          "deterministic simulation: the real extend-split loop driven by simulated benefit answers (zeros, ties, single area), area monitor after every evaluation and refinement step",
-         "Seeded search over extend-split histories (dim 2-3, versions 0-2, splits before extend, automatic decision, single-dimension splitting, boundary on/off). After every step: leaves are boxes inside the domain, pairwise disjoint interiors, volumes sum to the domain, every refined leaf is tiled by its children, coarsening >= 0, seeded points (interior, faces, corners, domain boundary) are assigned to exactly one containing leaf, per leaf the computed component grids have coefficient sum 1 at every grid point, and __call__ reproduces a hash-valued function at leaf grid points not shared with another leaf. Known findings are keyed by version/lmin class, boundary flag and failing function.",
+         "Seeded search over extend-split histories (dim 2-3, versions 0-2, splits before extend, automatic decision, single-dimension splitting, boundary on/off). After every step: leaves are boxes inside the domain, pairwise disjoint interiors, volumes sum to the domain, every refined leaf is tiled by its children, coarsening >= 0, seeded points (interior, faces, corners, domain boundary) are assigned to exactly one containing leaf, per leaf the computed component grids have coefficient sum 1 at every grid point, and __call__ reproduces a hash-valued function at leaf grid points not shared with another leaf. Known findings (interpolation with boundary points off; automatic decision at lmin = lmax) are keyed by boundary flag, configuration class and failing function.",
          "Trusted: harness monitors. Stubs: error-estimator answers, integrand values, clock. The library's own error-estimate machinery (parent split/extend operations) runs as real code.",
          "DESIGN.md section 5, C07"),
  "C05": ("dimwise_sim", "exploration",
